@@ -16,7 +16,7 @@ func TestProp(t *testing.T) {
 		ID: "C13",
 		Rule: "generated histories: blobcache = <=40 reserve/add/release/remove/batch/expire/get operations on BlobMemoryCache (MaxSize 0-256, 4 names, sizes around the remaining budget, Add only with an outstanding reservation of exactly the entry's length, duplicate Add followed by the documented release); " +
 			"castore = <=14 CAStore.WriteBlobToCacheWithMetaInfo writes (ok / writer fails once or twice / name not a digest / stream not hashing to the name / duplicate of a memory entry / declared size differing from the stream) interleaved with synchronous drain steps and TTL sweeps on a harness clock; " +
-			"lru = <=50 add/has/delete/clear/size operations on LRUCache (size 1-4, long TTL); lru-timed = real-clock family with TTL 200 ms; lru-timed-evict = 1-12 concurrent lanes, each <=14 add/sleep/delete/clear operations on its own LRUCache (size 1-3, 4 keys, TTL 100 ms on the real clock, sleeps of 10-130 ms so keys expire while others stay live, are refreshed after expiring but before the next purge, and the cache overflows afterwards); stress = 2-4 goroutines with generated operation lists on one BlobMemoryCache and one LRUCache. " +
+			"lru = <=50 add/has/delete/clear/size operations on LRUCache (size 1-4, long TTL); lru-timed = real-clock family with TTL 200 ms; lru-timed-evict = 1-24 concurrent lanes, each <=16 add/sleep/delete/clear operations on its own LRUCache (size 1-3, 5 keys, TTL 100 ms on the real clock, sleeps of 10-130 ms so keys expire while others stay live, are refreshed after expiring but before the next purge, and the cache overflows afterwards); stress = 2-4 goroutines with generated operation lists on one BlobMemoryCache and one LRUCache. " +
 			"Compared: after every operation TotalBytes <= MaxSize and TotalBytes == bytes of stored entries + outstanding reservations (byte model for blobcache, bytes read back from the memory entries for castore), TryReserve admitted iff it fits, NumEntries/ListNames/Get/GetExpiredEntries against the model; at quiescence (all drained) nothing stored or accounted; LRU Size/Has of every key against an ordered-list model (least recently added-or-refreshed first); lru-timed-evict: Size and Has of every key after every operation must be consistent with at least one state of a set-of-possible-states model (held keys oldest first; expiry decided only from bracketing clock readings, both outcomes followed when the age is within 2 ms of the TTL). " +
 			"Non-trivial: blobcache = >=1 refused and >=2 admitted reservations and >=1 removal or duplicate add; castore = >=1 write served by memory and >=1 failing/duplicate/mismatching write; lru = >=1 eviction by size; lru-timed = >=1 certainly-fresh and >=1 certainly-expired key judged; lru-timed-evict = a lane with both a TTL purge and a size eviction, or a size eviction after a refresh of an expired unpurged key; stress = >=2 admitted and >=1 refused reservation. Distinct by case hash.",
 		Assumptions: []string{
@@ -31,7 +31,7 @@ func TestProp(t *testing.T) {
 			pbt.NewPart("castore", 16, genCS, runCS),
 			pbt.NewPart("lru", 36, genLR, runLR),
 			pbt.NewPart("lru-timed", 1, genLT, runLT),
-			pbt.NewPart("lru-timed-evict", 2, genLE, runLE),
+			pbt.NewPart("lru-timed-evict", 1, genLE, runLE),
 			pbt.NewPart("stress", 7, genS, runS),
 		},
 	})
